@@ -38,7 +38,11 @@ ANY_TRUSTED = [
     "are not interfaces (reflect boxes each member on access): the model needs no extra constructor, the driver's toGval walk writes them; "
     "CYCLIC Go values (var p any; p = &p; type loop *loop; pointers leading into a cycle) and a 64-level pointer chain cannot be / are not "
     "written as finite gval terms: that stream is decided by the property oracle on the implementation only (every read under a 3 s "
-    "deadline: the call must return an error or a value; a read that does not return is the failing input `any:hang`)",
+    "deadline: the call must return an error or a value; a read that does not return is the failing input `any:hang`); SELF-CONTAINING maps / "
+    "slices (a map that is its own member, directly or through maps, slices, pointers) under the recursive record of the family, with acyclic "
+    "controls (shared sub-values, prefix slices) that must decode as their tree copies, are read in a CHILD process of the driver - an "
+    "unbounded recursion overflows the goroutine stack, which is fatal and cannot be recovered - oracle only: the child must exit normally "
+    "with an error (else `any:stack-overflow` / `any:hang` / `any:crash`)",
 ]
 ANY_ASSUME = [
     "readers_agree and its corollaries: strconv.ParseFloat(s, 64) of the decimal text of an integer |z| <= 2^53 is exactly z "
